@@ -70,6 +70,10 @@ def run(ctx):
     ctx.guard(rule_b, ctx, ix, f)
     ctx.guard(rule_c, ctx, ix, f)
     ctx.guard(rule_d, ctx, ix)
+    # the buffer follows the links each dataset installed: a link replaced behind the "unchanged" shortcut is never installed
+    from ..report import BorrowedCtx
+    from .C03 import rule_e as _shortcut
+    ctx.guard(_shortcut, BorrowedCtx(ctx, {'C03.e': 'C16.e'}), ix, ('_set_externally_derivable_components',))
 
 
 def _names(expr, func_node=None, _depth=0):
